@@ -7,6 +7,12 @@ import (
 // Reference model of the key engine, written from the property texts (C02, C03, C04, C13, C14)
 // and the user README — not from device.go. All arithmetic is in unbounded int.
 
+// PK identifies a physical key: key codes are scoped to the sub-handler (event node) that reports them.
+type PK struct {
+	Sub  string
+	Code uint16
+}
+
 type heldNote struct {
 	Ch, Pitch int
 }
@@ -23,7 +29,7 @@ type Model struct {
 	ModelState
 	heldActions map[string]bool
 	holders     map[heldNote]int
-	perKey      map[uint16]heldNote // key code -> what its press registered
+	perKey      map[PK]heldNote // key (sub-handler, code) -> what its press registered
 	keysDown    map[uint16]bool
 	Learning    bool
 	ExitFired   bool
@@ -31,7 +37,7 @@ type Model struct {
 }
 
 func NewModel(d *Desc) *Model {
-	m := &Model{d: d, heldActions: map[string]bool{}, holders: map[heldNote]int{}, perKey: map[uint16]heldNote{},
+	m := &Model{d: d, heldActions: map[string]bool{}, holders: map[heldNote]int{}, perKey: map[PK]heldNote{},
 		keysDown: map[uint16]bool{}, actionOf: map[uint16]string{}}
 	m.Octave, m.Semitone, m.Channel = d.Octave, d.Semitone, d.Channel-1
 	for i, mp := range d.Mappings {
@@ -120,12 +126,12 @@ func (m *Model) Key(sub string, code uint16, val int32) ModelStep {
 		if !ok {
 			return ModelStep{Kind: "ignored"}
 		}
-		return m.press(code, k)
+		return m.press(PK{sub, code}, k)
 	}
-	return m.release(code)
+	return m.release(PK{sub, code})
 }
 
-func (m *Model) press(code uint16, k KeyDef) ModelStep {
+func (m *Model) press(code PK, k KeyDef) ModelStep {
 	st := ModelStep{Kind: "note-press"}
 	pitch := k.Note + 12*m.Octave + m.Semitone
 	st.Pitch = pitch
@@ -156,7 +162,7 @@ func (m *Model) press(code uint16, k KeyDef) ModelStep {
 	return st
 }
 
-func (m *Model) release(code uint16) ModelStep {
+func (m *Model) release(code PK) ModelStep {
 	st := ModelStep{Kind: "note-release"}
 	hn, ok := m.perKey[code]
 	if !ok {
